@@ -92,6 +92,50 @@ func raceOnce(cb raceCombo, rng *rand.Rand, timeout time.Duration) {
 			c.Send(cctx, "t.e.Fail", nil, varlink.Oneway)
 			cancel()
 			c.Close()
+		case "clientreuse":
+			// a call cancelled while waiting for its reply, then the same connection used again
+			// by the same goroutine (the library's helper goroutines must be gone by then)
+			c, err := varlink.NewConnection(ctx, addr)
+			if err != nil {
+				return
+			}
+			cctx, cancel := context.WithTimeout(ctx, time.Duration(100+rng.Intn(300))*time.Microsecond)
+			var out map[string]string
+			c.Call(cctx, "t.e.Wait", nil, &out)
+			cancel()
+			select {
+			case waitRelease <- struct{}{}:
+			default:
+			}
+			for k := 0; k < 3; k++ {
+				cctx, cancel := context.WithTimeout(ctx, 200*time.Millisecond)
+				c.Call(cctx, "org.varlink.service.GetInfo", nil, &out)
+				cancel()
+			}
+			c.Close()
+		case "rwcancel":
+			// the context-aware stream alone: a cancelled frame read, then further reads and a write
+			a, b, err := socketPair()
+			if err != nil {
+				return
+			}
+			rw := varlink.VerifNewRW(a)
+			cctx, cancel := context.WithTimeout(ctx, time.Duration(50+rng.Intn(200))*time.Microsecond)
+			rw.ReadBytes(cctx, 0)
+			cancel()
+			b.Write([]byte{1, 2, 0, 3})
+			lctx, cancel2 := context.WithTimeout(ctx, 200*time.Millisecond)
+			rw.ReadBytes(lctx, 0)
+			buf := make([]byte, 4)
+			rw.Read(lctx, buf)
+			rw.Write(lctx, []byte{9, 0})
+			cancel2()
+			pctx, cancel3 := context.WithCancel(ctx)
+			cancel3()
+			rw.Read(pctx, buf)
+			rw.Write(pctx, []byte{9, 0})
+			a.Close()
+			b.Close()
 		case "upgrade":
 			c, err := varlink.NewConnection(ctx, addr)
 			if err != nil {
